@@ -30,7 +30,7 @@ ASSUMPTIONS = [
 ]
 SHARDS = {"quick": 4, "thorough": 16}
 
-SEPS = [",", " ", "ab", "\n", "::", "a", "x", ", ", "B", ".", "a|B", "[,;]+", "a.b"]
+SEPS = [",", " ", "ab", "\n", "::", "a", "x", ", ", "B", ".", "a|B", "[,;]+", "a.b", "\\", "\\n", "\\\\", "{", "%", "$", "^a", "(", "a*"]
 PATTERNS = [r"\s+", r"[,;]+", r"ab?", r"\d", r"a|B", r"a.b", r"\.", r"(,|;)", r"a(b)?", r"(?:,)(\s)?",  # "capture groups are ignored"
             r",?", r"(?=,)", r"\b", r"\s*", r",|"]  # patterns that can match the empty string (re.split splits there too)
 BOTH = ["a|B", "[,;]+", "a.b", "B", ","]  # valid as literal separator and as regular expression
@@ -244,7 +244,7 @@ def run_case(case):
     return res
 
 
-ALPHA = "abAB,; \n\t1:.|ßİǰ"  # incl. characters whose case mapping changes the length
+ALPHA = "abAB,; \n\t1:.|ßİǰ\\{%$^(*"  # incl. characters whose case mapping changes the length
 
 
 def strategy():
